@@ -1,16 +1,21 @@
 (* Statement pins: each property theorem is re-checked against the statement recorded here, so
    a theorem cannot be weakened in its own file without this file failing to compile. *)
+From Coq Require Import String.
 From BT Require Import Base.Util.
-From BT Require Generated.Consts Model.AutoSql Proofs.AutoSqlTotal Proofs.AutoSqlGen Proofs.AutoSqlStore Properties.C19.
+From BT Require Generated.Consts Model.AutoSql Proofs.AutoSqlLex Proofs.AutoSqlTotal Proofs.AutoSqlGen Proofs.AutoSqlStore Proofs.AutoSqlD9 Properties.C19.
 
 Module PinC19.
-Import Generated.Consts Model.AutoSql Proofs.AutoSqlTotal Proofs.AutoSqlGen Proofs.AutoSqlStore Properties.C19.
+Import Generated.Consts Model.AutoSql Proofs.AutoSqlLex Proofs.AutoSqlTotal Proofs.AutoSqlGen Proofs.AutoSqlStore Proofs.AutoSqlD9 Properties.C19.
 Local Open Scope nat_scope.
 Check (C19_parser_total : forall (s : list N) (fuel : nat), parse_fuel s <= fuel ->
   (exists ds, parse_autosql fuel s = Ok ds) \/ (exists c, parse_autosql fuel s = Err c)).
 Check (C19_parser_output_bounded : forall (s : list N) (fuel : nat) ds, parse_fuel s <= fuel ->
   parse_autosql fuel s = Ok ds ->
   length ds <= N.to_nat AUTOSQL_DECL_CAP + 1 /\ decls_weight ds <= length s).
+Check (C19_parser_fuel_independent : forall s f1 f2, parse_fuel s <= f1 -> parse_fuel s <= f2 ->
+  parse_autosql f1 s = parse_autosql f2 s).
+Check (C19_enum_loop_unrepaired_diverges : forall lf fuel, 4 < fuel ->
+  values_loop_unrepaired lf fuel (mkP (bs "a, b") 0) [] = Fuel).
 Check (C19_generated_field_count : forall n, declared_fields (bed_autosql_n n) = 3 + n).
 Check (C19_generated_field_count_rest : forall cols, Forall no_sep cols -> join_cols cols <> [] ->
   declared_fields (bed_autosql (join_cols cols)) = 3 + length cols).
